@@ -692,9 +692,27 @@ impl World {
 
     /// C02: two `finish_cycle` calls leave exactly the reachable values; shells are released by the
     /// first full cycle after no reachable weak pointer refers to them.
+    /// `apply` for the probes: a violation of the phase contract or of a metrics monitor (other properties' oracles,
+    /// evaluated inside `apply`) must not pre-empt the probe's own question; it is kept and returned at the end if the
+    /// probe itself finds nothing.
+    fn apply_in_probe(&mut self, op: Op, kept: &mut Option<crate::Viol>) -> VResult {
+        match self.apply(op) {
+            Err(v) if v.oracle.starts_with("c08.") || v.oracle.starts_with("c10.") => {
+                kept.get_or_insert(v);
+                Ok(())
+            }
+            r => r,
+        }
+    }
+
     pub fn probe_c02(mut self) -> VResult {
-        self.apply(Op::n0(K::FinCycle))?;
-        self.apply(Op::n0(K::FinCycle))?;
+        let mut kept: Option<crate::Viol> = None;
+        // "later collections still reclaim all garbage": also garbage that is made now
+        if self.arena.is_some() && self.room() && self.arena().collection_phase() != gc_arena::arena::CollectionPhase::Sweeping {
+            self.apply_in_probe(Op::n0(K::Garbage), &mut kept)?;
+        }
+        self.apply_in_probe(Op::n0(K::FinCycle), &mut kept)?;
+        self.apply_in_probe(Op::n0(K::FinCycle), &mut kept)?;
         let reach = self.sh.reach_mask();
         for (i, o) in self.sh.objs.iter().enumerate() {
             if !o.dropped && !reach[i] {
@@ -743,6 +761,9 @@ impl World {
         let cnt = talloc::gc_live_count_range(self.base, self.base + 120);
         if cnt != nreach {
             viol!("c02.shell_not_released", "one full cycle after the last weak pointer to a shell was cleared {cnt} allocations are still held, expected {nreach}");
+        }
+        if let Some(v) = kept {
+            return Err(v);
         }
         self.finish()
     }
